@@ -1,1 +1,36 @@
-From C05 Require Import Model Proofs.
+(* C05 — property theorems. This file contains nothing but the statements, each closed by
+   `exact <lemma>` from Proofs*.v, with Print Assumptions beneath, and the non-vacuity examples. *)
+From Coq Require Import List Permutation NArith.
+From C05 Require Import Model ProofsOrder ProofsNorm ProofsSearch Proofs.
+Import ListNotations.
+
+(* However the documents fs are split over fractions (arbitrary overlaps, duplicates allowed),
+   whichever fractions the range filter keeps (as long as a dropped fraction has no hit), in
+   whatever order fractions with equal borders come out of the sort, for every chunk size
+   (FractionsPerIteration, 0 = all), both orders and every limit: SearchDocs terminates (never
+   out of fuel) and returns exactly the first `limit` IDs of the one ordered duplicate-free list
+   of all hits - the answer of ONE fraction holding everything. *)
+Theorem C05_topk_partition :
+  forall (p : params) (fs : list frac) (keep : frac -> bool) (prepared : list frac) (fpi : nat),
+    (forall f, In f fs -> keep f = false -> hit_ids p f = []) ->
+    Permutation prepared (filter keep fs) ->
+    KS (p_order p) prepared ->
+    exists r, search_docs p fpi prepared = Ok r
+      /\ q_ids r = spec_ids p fs
+      /\ q_ids r = q_ids (frac_search p (p_limit p) (concat fs)).
+Proof. exact topk_partition. Qed.
+Print Assumptions C05_topk_partition.
+
+(* The hypotheses of C05_topk_partition hold for the code's own FilterInRange + Sort. *)
+Theorem C05_topk_partition_prepare : forall p fs fpi,
+  exists r, search_docs p fpi (prepare p fs) = Ok r /\ q_ids r = spec_ids p fs.
+Proof. exact topk_partition_prepare. Qed.
+Print Assumptions C05_topk_partition_prepare.
+
+(* Pages tile the one global list: consecutive pages concatenate to the bigger page, and a page
+   is the contiguous segment [offset, offset+size) of the list - no gaps, no repeats. *)
+Theorem C05_paging_tiles : forall G off s s',
+  page G off s ++ page G (off + s) s' = page G off (s + s')
+  /\ G = firstn off G ++ page G off s ++ skipn (off + s) G.
+Proof. exact paging_tiles. Qed.
+Print Assumptions C05_paging_tiles.
